@@ -144,9 +144,7 @@ def disengageV (closes : Bool) (cf : ModeCfg) (st : MState) : MState × List Ev 
 /-- tscreen.go:685 Fini = finiOnce.Do(finish); finish 689; finalize 2158 -/
 def finiV (closes : Bool) (cf : ModeCfg) (st : MState) : MState × List Ev :=
   if st.finished then (st, [])
-  else
-    let (st', evs) := disengageV closes cf st
-    ({ st' with finished := true }, evs ++ [.call .close])
+  else ({ (disengageV closes cf st).1 with finished := true }, (disengageV closes cf st).2 ++ [.call .close])
 
 /-- the draw API; Show and Sync do nothing (but Sync forgets the cursor) unless running (tscreen.go:1028, 1938) -/
 def scrStep (cf : ModeCfg) (st : MState) (op : ScrOp) : MState × List Ev :=
